@@ -44,9 +44,13 @@ func setup(c *casket.Controller) error {
 
 func logParse(c *casket.Controller) ([]*Rule, error) {
 	var rules []*Rule
-	var logExceptions []string
 	for c.Next() {
 		args := c.RemainingArgs()
+
+		// the exceptions of this log directive only: a list shared by all
+		// directives made every later log skip the paths excepted by the
+		// earlier ones as well
+		var logExceptions []string
 
 		ip4Mask := net.IPMask(net.ParseIP(DefaultIP4Mask).To4())
 		ip6Mask := net.IPMask(net.ParseIP(DefaultIP6Mask))
